@@ -121,6 +121,10 @@ func (n *Namer) Key(k string) int64 {
 	if v, ok := n.keys[k]; ok {
 		return v
 	}
+	if k == "__b" {
+		n.keys[k] = 999 // Scorch/DiskCorr.v tag_key
+		return 999
+	}
 	if len(k) > 1 && k[0] == 'k' {
 		if i, err := strconv.Atoi(k[1:]); err == nil {
 			n.keys[k] = int64(i)
@@ -158,52 +162,64 @@ type VersionOf func(ev *scorch.VerifEvent, docID string) (ver int64, ok bool)
 func Terms(evs []*scorch.VerifEvent, n *Namer, ver VersionOf) []cf.T {
 	var out []cf.T
 	for _, e := range evs {
-		switch e.Kind {
-		case "introduce":
-			// batch in the order the model needs: updates in new-segment doc-number order, then deletes
-			var b []cf.T
-			inNew := map[string]bool{}
-			for _, id := range e.NewDocIDs {
-				inNew[id] = true
-				v, _ := ver(e, id)
-				b = append(b, cf.Pair(cf.Z(n.DocID(id)), cf.Some(cf.Z(v))))
-			}
-			ids := append([]string{}, e.IDs...)
-			sort.Strings(ids)
-			for _, id := range ids {
-				if !inNew[id] {
-					b = append(b, cf.Pair(cf.Z(n.DocID(id)), cf.None))
-				}
-			}
-			var iops []cf.T
-			var ks []string
-			for k := range e.Internal {
-				ks = append(ks, k)
-			}
-			sort.Strings(ks)
-			for _, k := range ks {
-				iops = append(iops, cf.Pair(cf.Z(n.Key(k)), cf.Some(cf.Z(ValZ(e.Internal[k])))))
-			}
-			for _, k := range e.IntDel {
-				iops = append(iops, cf.Pair(cf.Z(n.Key(k)), cf.None))
-			}
-			out = append(out, cf.App("TIntroduce", cf.U(e.NewSegID), cf.List(b), cf.List(iops), projTerm(e.Root)))
-		case "merge_start":
-			var gs []cf.T
-			for _, t := range e.Tasks {
-				caps := cf.ListOf(t.Captured, func(s scorch.VerifSeg) cf.T { return cf.Pair(cf.U(s.ID), delTerm(s.Deleted)) })
-				gs = append(gs, cf.Pair(cf.U(t.New), caps))
-			}
-			out = append(out, cf.App("TMergeStart", cf.Bool(e.FileMerge), cf.List(gs)))
-		case "merge_finish":
-			var news []cf.T
-			for _, t := range e.Tasks {
-				news = append(news, cf.U(t.New))
-			}
-			out = append(out, cf.App("TMergeFinish", cf.List(news), projTerm(e.Root)))
-		case "persist_intro":
-			out = append(out, cf.App("TPersist", cf.ListOf(e.Persisted, cf.U), projTerm(e.Root)))
+		if t, ok := TermOf(e, n, ver); ok {
+			out = append(out, t)
 		}
 	}
 	return out
 }
+
+// TermOf renders one introducer / merge_start event as a Coq [tev] term.
+func TermOf(e *scorch.VerifEvent, n *Namer, ver VersionOf) (cf.T, bool) {
+	switch e.Kind {
+	case "introduce":
+		// batch in the order the model needs: updates in new-segment doc-number order, then deletes
+		var b []cf.T
+		inNew := map[string]bool{}
+		for _, id := range e.NewDocIDs {
+			inNew[id] = true
+			v, _ := ver(e, id)
+			b = append(b, cf.Pair(cf.Z(n.DocID(id)), cf.Some(cf.Z(v))))
+		}
+		ids := append([]string{}, e.IDs...)
+		sort.Strings(ids)
+		for _, id := range ids {
+			if !inNew[id] {
+				b = append(b, cf.Pair(cf.Z(n.DocID(id)), cf.None))
+			}
+		}
+		var iops []cf.T
+		var ks []string
+		for k := range e.Internal {
+			if k != "TotBytesWritten" {
+				ks = append(ks, k)
+			}
+		}
+		sort.Strings(ks)
+		for _, k := range ks {
+			iops = append(iops, cf.Pair(cf.Z(n.Key(k)), cf.Some(cf.Z(ValZ(e.Internal[k])))))
+		}
+		for _, k := range e.IntDel {
+			iops = append(iops, cf.Pair(cf.Z(n.Key(k)), cf.None))
+		}
+		return cf.App("TIntroduce", cf.U(e.NewSegID), cf.List(b), cf.List(iops), ProjTerm(e.Root)), true
+	case "merge_start":
+		var gs []cf.T
+		for _, t := range e.Tasks {
+			caps := cf.ListOf(t.Captured, func(s scorch.VerifSeg) cf.T { return cf.Pair(cf.U(s.ID), delTerm(s.Deleted)) })
+			gs = append(gs, cf.Pair(cf.U(t.New), caps))
+		}
+		return cf.App("TMergeStart", cf.Bool(e.FileMerge), cf.List(gs)), true
+	case "merge_finish":
+		var news []cf.T
+		for _, t := range e.Tasks {
+			news = append(news, cf.U(t.New))
+		}
+		return cf.App("TMergeFinish", cf.List(news), ProjTerm(e.Root)), true
+	case "persist_intro":
+		return cf.App("TPersist", cf.ListOf(e.Persisted, cf.U), ProjTerm(e.Root)), true
+	}
+	return "", false
+}
+
+func ProjTerm(root []scorch.VerifSeg) cf.T { return projTerm(root) }
